@@ -63,6 +63,14 @@ def case_strategy(draw):
     elif opt == 'placed':
         nb = draw(st.integers(0, 12))
         kw['placed'] = sorted(set(lo + span * (0.5 * (1 + draw(uf)) * 1.4 - 0.2) for _ in range(nb)))
+    bk_int = False
+    if opt in ('bkpt', 'placed') and span >= 10 and draw(st.integers(0, 2)) == 0:
+        # whole-number breakpoints held in an integer array (np.arange(0, 101, 10)); the data ends are not whole numbers (D44)
+        bk_int = True
+        iv = sorted(set(int(round(v)) for v in kw[opt]))
+        if opt == 'bkpt' and len(iv) < 2:
+            iv = [int(math.floor(lo)) + 1, int(math.floor(lo + span))]
+        kw[opt] = iv
     elif opt == 'bkspace':
         # any spacing, or one that divides the data range exactly (0.1 into 1, 0.4 into 10, ...)
         kw['bkspace'] = span * 10 ** (draw(st.integers(-15, 15)) / 10.0) if draw(st.booleans()) else span / draw(st.sampled_from([10, 5, 25, 3, 4, 8, 20, 12, 7]))
@@ -89,6 +97,11 @@ def case_strategy(draw):
             x = sorted(xs_)
             kw['everyn'] = min(kw['everyn'], len(x) // 2)
         if draw(st.integers(0, 3)) == 0:
+            # the data begin with a run of equal values: with a small everyn the lowest breakpoint is repeated (D45)
+            x = [min(x)] * draw(st.integers(1, 3)) + sorted(x)
+            kw['everyn'] = draw(st.sampled_from([1, 1, 2, kw['everyn']]))
+            kw['everyn'] = min(kw['everyn'], max(1, len(x) // 2))
+        if draw(st.integers(0, 3)) == 0:
             # the data end in a run of equal values (several measurements at the last abscissa)
             x = sorted(x) + [max(x)] * draw(st.integers(1, 3))
             kw['everyn'] = min(kw['everyn'], max(1, len(x) // 2))
@@ -99,7 +112,9 @@ def case_strategy(draw):
     ev = []
     for _ in range(ne):
         ev.append([draw(st.sampled_from(['in', 'in', 'in', 'knot', 'end', 'out'])), 0.5 * (1 + draw(uf)), draw(st.integers(0, 40))])
-    return dict(x=x, nord=nord, opt=opt, kw=kw, ev=ev, coeff_seed=[draw(uf) for _ in range(8)], sort_eval=draw(st.sampled_from([False, False, True])),
+    if bk_int:
+        x = [v + 0.37 if v == min(x) else (v - 0.29 if v == max(x) else v) for v in x] if span >= 10 else x
+    return dict(x=x, nord=nord, opt=opt, kw=kw, bk_int=bk_int, ev=ev, coeff_seed=[draw(uf) for _ in range(8)], sort_eval=draw(st.sampled_from([False, False, True])),
                 ev_dtype=draw(st.sampled_from(['f8', 'f8', 'f4', 'i8'])), many=draw(st.integers(0, 400)) == 0)
 
 
@@ -110,7 +125,9 @@ def body(case):
     kw = dict(case['kw'])
     for k in ('bkpt', 'placed'):
         if k in kw:
-            kw[k] = np.array(kw[k], dtype='f8')
+            kw[k] = np.array(kw[k], dtype='i8' if case.get('bk_int') else 'f8')
+    if case.get('bk_int'):
+        note_label('integer-breakpoints')
     b = call(bspline, x, nord=nord, **kw)
     with judge('knots'):
         t = np.asarray(b.breakpoints, dtype='f8')
